@@ -44,7 +44,9 @@ func H16_teardown() {
 	// publisher flooding itself without reading (its processor blocked on its own outbound ring),
 	// publisher blocked behind the stalled subscriber with a protocol error in the middle of its full pipeline
 	cond := vrtChoice("condition", 6)
-	how := vrtChoice("ending", 5)     // DISCONNECT, network drop, deadline expiry, protocol error, Server.Close
+	// DISCONNECT, network drop, deadline expiry, protocol error, Server.Close,
+	// write side broken (the broker cannot answer any more) and then a last SUBSCRIBE before the drop
+	how := vrtChoice("ending", 6)
 	var s, p *vrtConn
 	if vrtBool("publisher_connects_first") {
 		p, _ = b.connect(vrtConnectPkt([]byte("p"), true))
@@ -143,6 +145,15 @@ func H16_teardown() {
 			c.peerSend([]byte{0x00, 0x00})
 			vrtQuiesce()
 			c.peerClose()
+		case 5:
+			c.mu.Lock()
+			c.failWrites = true
+			c.mu.Unlock()
+			c.peerSend(specEncode(&specPkt{Typ: specPINGREQ}))
+			vrtQuiesce()
+			c.peerSend(specEncode(&specPkt{Typ: specSUBSCRIBE, ID: 9, Topics: [][]byte{[]byte("late")}, QoS: []byte{0}}))
+			vrtQuiesce()
+			c.peerClose()
 		}
 		vrtQuiesce()
 	}
@@ -155,7 +166,9 @@ func H16_teardown() {
 		b.svr.topicsMgr.Subscribers([]byte("to/s"), 0, &subs, &qoss)
 		n1 := len(subs)
 		b.svr.topicsMgr.Subscribers([]byte("to/p"), 0, &subs, &qoss)
-		vrtAssert("C16.subscriptions_removed", n1+len(subs) == 0)
+		n2 := len(subs)
+		b.svr.topicsMgr.Subscribers([]byte("late"), 0, &subs, &qoss)
+		vrtAssert("C16.subscriptions_removed", n1+n2+len(subs) == 0)
 		vrtAssert("C16.server_close_returns", b.svr.Close() == nil)
 	}
 	vrtObserve("teardown", cond, how)
